@@ -8,7 +8,7 @@ import random
 
 from . import ser
 
-NLEAVES = 11
+NLEAVES = 13
 REGS = ("a", "b", "c", "d")
 MREG = "r"   # the 2W-bit register of the behaviour's persistent mapper
 
@@ -20,8 +20,15 @@ def make_leaves(W):
     c.signed()
     d.signed()
     m = (1 << W) - 1
+    e = reg("e", W + 2)
+    f = reg("f", W + 2)
+    f.signed()
+    se = e[1:W + 1]
+    se.signed()
+    sf_ = f[1:W + 1]
+    sf_.unsigned()
     return [a, b, c, d, cst(0, W), cst(1, W), cst(m, W), cst(-1, W), cst(1 << (W - 1), W),
-            cst((W - 1) & m, W), cst(W & m, W)]
+            cst((W - 1) & m, W), cst(W & m, W), se, sf_]
 
 
 def used_regs(calls):
@@ -33,6 +40,8 @@ def used_regs(calls):
         for o in ops:
             if o <= 4:
                 s.add(REGS[o - 1])
+            elif o in (12, 13):
+                s.add("e" if o == 12 else "f")
             elif o > NLEAVES:
                 s |= live.get(o, set())
         live[NLEAVES + idx + 1] = s
@@ -40,13 +49,16 @@ def used_regs(calls):
     return sorted(used)
 
 
+XREGS = ("e", "f")   # W+2-bit registers under the flagged slices (leaves 12, 13)
+
+
 def make_envs(W, calls, rng, cap=16):
     regs = used_regs(calls)
     m = (1 << W) - 1
     envs = []
-    if regs and (1 << (W * len(regs))) <= cap:
+    if regs and not (set(regs) & set(XREGS)) and (1 << (W * len(regs))) <= cap:
         for vals in itertools.product(range(1 << W), repeat=len(regs)):
-            e = dict((r, 0) for r in REGS)
+            e = dict((r, 0) for r in REGS + XREGS)
             e.update(zip(regs, vals))
             envs.append(e)
         exhaustive = True
@@ -62,6 +74,8 @@ def make_envs(W, calls, rng, cap=16):
             for r in REGS:
                 x = rng.random()
                 e[r] = rng.choice(bnd) if x < 0.6 else (rng.getrandbits(W) if x < 0.9 else rng.getrandbits(min(W, 3)))
+            for r in XREGS:
+                e[r] = rng.getrandbits(W + 2) if rng.random() < 0.7 else rng.choice((0, (1 << (W + 2)) - 1, 1 << W, 2))
             key = tuple(e[r] for r in regs) if regs else ()
             if key in seen and regs:
                 continue
@@ -259,6 +273,8 @@ def replay(tid, beh, seed, threshold):
                         for r in REGS:
                             m[P[REGS.index(r)]] = cst(env[r], W)
                         m[R] = cst(env[MREG], 2 * W)
+                        m[P[11].x] = cst(env["e"], W + 2)
+                        m[P[12].x] = cst(env["f"], W + 2)
                         v = m(x)
                         k = ser.kind(v)
                         rec = {"h": h + 1, "k": k if k in ("cst",) else "sym", "w": v.size}
@@ -278,7 +294,8 @@ def replay(tid, beh, seed, threshold):
                     live.append({"h": h + 1, "tree": t})
             ev.append({"act": "frame", "raised": "", "live": live})
         return {"t": tid, "w": W, "thr": threshold, "exhaustive_envs": 1 if exhaustive else 0,
-                "envs": [dict([(r, ser.bits(env[r], W)) for r in REGS] + [(MREG, ser.bits(env[MREG], 2 * W))])
+                "envs": [dict([(r, ser.bits(env[r], W)) for r in REGS] + [(r, ser.bits(env[r], W + 2)) for r in XREGS]
+                              + [(MREG, ser.bits(env[MREG], 2 * W))])
                          for env in envs], "ev": ev}
     finally:
         conf.Cas.complexity = old_thr
